@@ -144,10 +144,27 @@ pub mod rust_log_ref_finder
                     let rule_ref_container_span = rule_l2.as_span();
                     let mut kvp_spans: Vec<(pest::Span, Option<pest::Span>)> = Vec::new();
 
+                    /*
+                     * If there's a target argument, a new reference key-value
+                     * pair has to go after it: the log macros only accept
+                     * `target:` as their very first argument.
+                     */
+                    let mut target_found = false;
+                    let mut first_after_target: Option<pest::Position> = None;
+
                     for rule in rule_l2.into_inner()
                     {
+                        if target_found && first_after_target.is_none()
+                        {
+                            first_after_target = Some(rule.as_span().start_pos());
+                        }
+
                         match rule.as_rule()
                         {
+                            Rule::target_literal =>
+                            {
+                                target_found = true;
+                            },
                             Rule::string_literal =>
                             {
                                 log_message_span = match rule.into_inner().next()
@@ -264,11 +281,19 @@ pub mod rust_log_ref_finder
                                 insertion_suffix = Some("; ".to_string());
                             }
 
-                            code_pos = Some(CodePosition::new(
-                                rule_ref_container_span.start() + 1,
-                                rule_ref_container_span.start_pos().line_col().0,
-                                rule_ref_container_span.start_pos().line_col().1 + 1,
-                            ));
+                            code_pos = Some(match first_after_target
+                            {
+                                Some(pos) => CodePosition::new(
+                                    pos.pos(),
+                                    pos.line_col().0,
+                                    pos.line_col().1,
+                                ),
+                                None => CodePosition::new(
+                                    rule_ref_container_span.start() + 1,
+                                    rule_ref_container_span.start_pos().line_col().0,
+                                    rule_ref_container_span.start_pos().line_col().1 + 1,
+                                ),
+                            });
                         }
                     }
                     else
